@@ -142,8 +142,24 @@ func c17TrieOracle(c *Ctx, cdb *store.ChainDatabase) {
 		rounds = 8
 	}
 	for r := 0; r < rounds; r++ {
-		secure := c.Rnd.Intn(3) != 0
-		limit := []uint16{0, 1, 2, 120}[c.Rnd.Intn(4)]
+		c17TrieOracleRound(c, cdb)
+	}
+}
+
+// one round; a panic anywhere in the real code is a finding, not a harness crash
+func c17TrieOracleRound(c *Ctx, cdb *store.ChainDatabase) {
+	var script []string
+	secure := false
+	limit := uint16(0)
+	defer func() {
+		if r := recover(); r != nil {
+			c.Fail("c17/trie-panic", fmt.Sprintf("panic in the trie code: %v", r),
+				map[string]interface{}{"secure": secure, "cachelimit": limit, "script": script})
+		}
+	}()
+	{
+		secure = c.Rnd.Intn(3) != 0
+		limit = []uint16{0, 1, 2, 120}[c.Rnd.Intn(4)]
 		tdb := cdb.GetTrieDatabase()
 		open := func(root common.Hash, db *store.TrieDatabase) (secureOrPlain, error) {
 			if secure {
@@ -167,7 +183,7 @@ func c17TrieOracle(c *Ctx, cdb *store.ChainDatabase) {
 		tr, err := open(common.Hash{}, tdb)
 		if err != nil {
 			c.Fail("c17/trie-open", err.Error(), nil)
-			continue
+			return
 		}
 		klen := 4
 		if secure {
@@ -187,7 +203,6 @@ func c17TrieOracle(c *Ctx, cdb *store.ChainDatabase) {
 			pool[i] = k
 		}
 		ref := map[string][]byte{}
-		var script []string
 		fail := func(sig, detail string) {
 			c.Fail(sig, detail, map[string]interface{}{"secure": secure, "cachelimit": limit, "script": script})
 		}
@@ -278,7 +293,7 @@ func c17TrieOracle(c *Ctx, cdb *store.ChainDatabase) {
 			}
 		}
 		if !ok {
-			continue
+			return
 		}
 		checkReads("final")
 		final := tr.Hash()
@@ -310,10 +325,10 @@ func c17TrieOracle(c *Ctx, cdb *store.ChainDatabase) {
 		}
 		if err != nil || root != final {
 			fail("c17/trie-commit-root", fmt.Sprintf("Commit root %x != Hash %x (err %v)", root, final, err))
-			continue
+			return
 		}
 		if len(content) == 0 {
-			continue
+			return
 		}
 		disk := tdb.DiskDB()
 		for pi := 0; pi < 6; pi++ {
@@ -322,7 +337,7 @@ func c17TrieOracle(c *Ctx, cdb *store.ChainDatabase) {
 			v, err, _ := trie.VerifyProof(root, rawKey(e.k), rec)
 			if err != nil || !bytes.Equal(v, e.v) {
 				fail("c17/proof-present", fmt.Sprintf("VerifyProof over BeansDB for present key %x: %x err %v, want %x", e.k, v, err, e.v))
-				continue
+				return
 			}
 			c.Count("oracle:proof-present")
 			pdb := proofDbOf(rec.seen)
